@@ -59,6 +59,14 @@ class Clean:
         self.cmdno += 1
         return '{{{ echo c%d }}}' % self.cmdno
 
+    def descr(self, t):
+        k = self.r.random()
+        if k < 0.7:
+            return '"descr of %s"' % t
+        if k < 0.85:
+            return '"the \\"%s\\" one"' % t
+        return '"back\\\\slash %s"' % t
+
     def item(self, d):
         r = self.r
         x = r.random()
@@ -67,7 +75,7 @@ class Clean:
             if k < 0.5:
                 t = self.f.lit()
                 if r.random() < 0.25:
-                    t += ' "descr of %s"' % t
+                    t += ' ' + self.descr(t)
                 return t
             if k < 0.6:
                 return self.cmd()
@@ -95,8 +103,12 @@ class Clean:
         r = self.r
         pre = self.f.lit('--w') + '='
         k = r.random()
-        if k < 0.5:
+        if k < 0.4:
             return pre + '(' + ' | '.join(self.f.lit('v') for _ in range(r.choice([2, 3]))) + ')'
+        if k < 0.5:
+            # glued literals, the last one described
+            v = self.f.lit('v')
+            return pre + '[' + self.f.lit('g') + ']' + v + ' ' + self.descr(v)
         if k < 0.7:
             return pre + self.cmd()
         if k < 0.85:
@@ -212,15 +224,25 @@ def plant(rng, kind, cmd='cmd'):
         return stmts + ['<%s@%s> ::= %s;' % (a, sh, c.cmd()), '<%s> ::= %s %s;' % (a, lit, f.lit())], ('NonCommandSpecialization', sh), lit
     if kind == 'subword_spaces':
         l1, l2 = f.lit('sp'), f.lit('sp')
-        n = f.name('W')
         pre = f.lit('--p') + '='
+        if rng.random() < 0.5:
+            # the word is written out (`--p=(a b)`), and sits in the call variant or behind whole-word references
+            w = '%s(%s %s)' % (pre, l1, l2) if rng.random() < 0.6 else '%s(%s | %s %s)' % (pre, f.lit('v'), l1, l2)
+            use, extra = through_defs(w)
+            stmts[0] = stmts[0][:-1] + ' ' + use + ';'
+            return stmts + extra, 'SubwordSpaces', l1
+        # the spaces come from a definition that is referenced inside a word
+        n = f.name('W')
         inner, extra = '%s %s' % (l1, l2), []
+        if rng.random() < 0.3:
+            inner = '(%s %s) %s' % (c.cmd(), l1, l2)     # the left operand starts with something else
         for _ in range(chain):
             m = f.name('H')
             extra.append('<%s> ::= %s;' % (m, inner))
             inner = '<%s>' % m
-        stmts[0] = stmts[0][:-1] + ' %s<%s>;' % (pre, n)
-        return stmts + extra + ['<%s> ::= %s;' % (n, inner)], 'SubwordSpaces', l1
+        use, extra2 = through_defs('%s<%s>' % (pre, n)) if rng.random() < 0.5 else ('%s<%s>' % (pre, n), [])
+        stmts[0] = stmts[0][:-1] + ' ' + use + ';'
+        return stmts + extra + extra2 + ['<%s> ::= %s;' % (n, inner)], 'SubwordSpaces', l1
     if kind == 'placeholder_not_last':
         u = f.name('U')
         tail = f.lit('tail')
@@ -393,11 +415,18 @@ def warn_case(rng):
             extra.append('<%s> ::= %s=<%s>;' % (m, f.lit('--z'), n))
         elif k < 0.75:   # the exempt placeholder
             stmts[0] = stmts[0][:-1] + ' %s <_>;' % f.lit()
-        elif k < 0.85:   # built-in names
+        elif k < 0.85:   # built-in names, referenced directly or from inside another definition
             b = rng.choice(['PATH', 'DIRECTORY'])
-            stmts[0] = stmts[0][:-1] + ' %s <%s>;' % (f.lit(), b)
-            if rng.random() < 0.3 and not any(('<%s>' % b) in e[:12] for e in extra):
-                extra.append('<%s> ::= %s;' % (b, c.cmd()))
+            if rng.random() < 0.5:
+                stmts[0] = stmts[0][:-1] + ' %s <%s>;' % (f.lit(), b)
+            else:
+                m = rng.choice(['FILE', 'OUTPUT', 'LOG', 'OPT', 'ROOT', 'THING', 'OPTION', 'ARG', 'NAME', 'VALUE']) + str(f.n)
+                m = m if rng.random() < 0.5 else m.rstrip('0123456789')
+                if not any(e.startswith('<%s>' % m) for e in extra):
+                    stmts[0] = stmts[0][:-1] + ' [<%s>];' % m
+                    extra.append('<%s> ::= %s <%s>;' % (m, f.lit(), b))
+            if rng.random() < 0.5 and not any(e.startswith('<%s>' % b) for e in extra):
+                extra.append('<%s> ::= %s;' % (b, c.cmd() if rng.random() < 0.5 else f.lit('own') + ' | ' + f.lit('own')))
         elif k < 0.93:   # the same undefined name used twice
             stmts[0] = stmts[0][:-1] + ' %s <%s> %s <%s>;' % (f.lit(), n, f.lit(), n)
         else:            # defined for another shell only
